@@ -227,7 +227,7 @@ class Check:
         names = set(_DECL_RE.findall(text))
         declared = set(names)
         # defining facts of the Ackermannised square roots that occur (closure: a fact may mention further roots)
-        defs, frontier = [], set(names)
+        defs, frontier = [], (set(names) if not os.environ.get("VERIF_NO_DEFS") else set())
         seen_defs = set()
         while frontier:
             nxt = set()
